@@ -586,7 +586,13 @@ def make_attr_func_kind(repo, modname):
             return None
         key = (m.name, fn.name)
         if key not in cache:
-            cache[key] = attr_container_of(fn)
+            k = attr_container_of(fn)
+            if k is None:
+                try:        # the constructor may sit in a helper: read the view of the function
+                    k = attr_container_of(he_norm.view(repo, m.name, fn))
+                except Exception:
+                    k = None
+            cache[key] = k
         return cache[key]
     return resolve
 
@@ -863,6 +869,10 @@ def _nearest_loop(node):
     return None
 
 
+# connectivity queries that answer for ONE side of an edge (the face / corner of the half-edge (u, v)) and return None when that side is the border
+SIDE_QUERIES = {"direct_face", "half_edge_to_corner"}
+
+
 def edge_side_sites(fn):
     """Per-edge loops that visit the faces on the two sides of an edge.  Returns a list of dicts
     {loop, ends, kind ('direct'|'e2f'), sides, problems[(node, text)]}."""
@@ -883,7 +893,7 @@ def edge_side_sites(fn):
                 side_loops.append(st)
         for st in body:
             for c in au.calls(st) if not isinstance(st, (ast.For, ast.While, ast.If)) else []:
-                if au.call_tail(c) != "direct_face" or len(c.args) < 2:
+                if au.call_tail(c) not in SIDE_QUERIES or len(c.args) < 2:
                     continue
                 args = [au.src(a) for a in c.args[:2]]
                 sides = None
@@ -913,8 +923,9 @@ def edge_side_sites(fn):
         if queries:
             got = {s for q in queries for s in q[2]}
             if got != {(A, B), (B, A)}:
-                problems.append((queries[0][1], f"the faces of edge ({A}, {B}) are queried on the side(s) {sorted(got)} only: both direct_face({A}, {B}) "
-                                                f"and direct_face({B}, {A}) must contribute"))
+                qn = au.call_tail(queries[0][1])
+                problems.append((queries[0][1], f"the faces of edge ({A}, {B}) are queried on the side(s) {sorted(got)} only: both {qn}({A}, {B}) "
+                                                f"and {qn}({B}, {A}) must contribute (a side reached only through the other one is lost when that one is the border)"))
         for st in body:
             if isinstance(st, ast.Return):
                 problems.append((st, "a `return` inside the per-edge loop abandons the remaining sides / edges"))
